@@ -3,14 +3,12 @@ package pebbles
 import (
 	"encoding/json"
 	"errors"
-	"net"
 	"sync"
 
 	"github.com/buildbuildio/pebbles/executor"
 	"github.com/buildbuildio/pebbles/gqlerrors"
 	"github.com/buildbuildio/pebbles/planner"
 	"github.com/buildbuildio/pebbles/requests"
-	"github.com/gobwas/ws/wsutil"
 )
 
 type subscriptionEntry struct {
@@ -137,7 +135,7 @@ func (se *subscriptionEntry) Close() {
 	close(se.closeCh)
 }
 
-func (se *subscriptionEntry) Listen(conn net.Conn) {
+func (se *subscriptionEntry) Listen(conn *frameConn) {
 	upstreamDone := false
 	defer func() {
 		// ask the queryer to close the upstream connection ...
@@ -166,7 +164,7 @@ func (se *subscriptionEntry) Listen(conn net.Conn) {
 			if err != nil {
 				return
 			}
-			if err := wsutil.WriteServerText(conn, bResp); err != nil {
+			if err := conn.writeText(bResp); err != nil {
 				return
 			}
 		case <-se.closeCh:
